@@ -268,7 +268,10 @@ def run_pn_linesearch(ctx, rep, n_cases=None):
             def F(w, b0):
                 u = X @ w + b0
                 return df.ref_value(np.ones(len(y)), y, u, w) + sum(pen.ref_pen1(x, tt) for x, tt in zip(w, wts))
-            f0, f1 = F(w0, b0), F(w1[:p], w1[p])
+            w1e = w1[:p].copy()
+            if pen.kind == "box":       # undoing a trial step by subtraction may leave a bound by one rounding error
+                w1e = np.where(np.abs(w1e - pen.alpha) <= 1e-12, pen.alpha, np.where(np.abs(w1e) <= 1e-12, 0.0, w1e))
+            f0, f1 = F(w0, b0), F(w1e, w1[p])
             if math.isfinite(f0) and not (f1 <= f0 + 1e-9 * (1 + abs(f0))):
                 rep.violate("the prox-Newton line search returns a point with a larger documented objective than its start",
                             dict(site=site, kind="ascent"), input=dict(inp, step=t),
